@@ -56,6 +56,7 @@ var layoutKinds = []string{
 	"overlap-new-old",
 	"new-inside-old", // new occurs inside old (not at its start): a view into the middle of old
 	"old-inside-new",
+	"nil-for-empty", // an empty text passed as a nil slice
 }
 
 func cat(parts ...[]byte) []byte {
@@ -164,6 +165,19 @@ func buildLayout(kind string, old, new []byte) (layout, bool) {
 		l.buf = cat(new, []byte(guard))
 		l.new, l.old = l.buf[:ln], l.buf[p:p+lo]
 		l.oOff = p
+	case "nil-for-empty":
+		if lo > 0 && ln > 0 {
+			return l, false
+		}
+		l.buf = cat(old, []byte(guard), new, []byte(guard))
+		l.nOff = lo + g
+		l.old, l.new = l.buf[0:lo:lo+g], l.buf[lo+g:lo+g+ln:lo+g+ln+g]
+		if lo == 0 {
+			l.old = nil
+		}
+		if ln == 0 {
+			l.new = nil
+		}
 	default:
 		return l, false
 	}
